@@ -64,6 +64,11 @@ CHECKS["C17"] = dict(
    technique="metamorphic property-based testing: the same item sequence under different block partitions, read/write batch sizes and write groupings must read back identically",
    text="Exploration: generated packages with stream steps x item sequences whose neighbours differ in shape x 4-6 variants of (input block partition, C++ CopyTo buffer sizes selecting single-item or batch read/write overloads, Python write grouping: list / lazy generator / one by one / chunks of k, binary or NDJSON on either side); every variant must deliver exactly the items written, in order (checked against the reference decoder / mapping).",
    note=RT_NOTE, ref="DESIGN.md section 3 (C17)")
+CHECKS["C08"] = dict(
+   technique="property-based testing with identifier-hostile model generation and option-set generation; oracle = generated code compiles/imports in the real tool chains",
+   text="Exploration: accepted generated packages whose type/field/step/enum-symbol/union-tag/dimension/computed-field/namespace names are drawn from target-language reserved words and generated-helper names (pools pre-screened one position at a time by an exhaustive 898-pair sweep), near-colliding names, hostile documentation comments, x generated option sets, plus `yardl init <name>` scaffolds. Oracle: validate exit 0 => generate exit 0 without panic; generated Python byte-compiles and imports; generated C++ passes g++ -std=c++17 -fsyntax-only; no duplicate attribute in a generated Python class; no case-insensitive MATLAB file collision.",
+   note="trusted: g++ 12 / python3-vt as the judges of well-formedness; C++ is compiled only with the harness's array header (documented overrideArrayHeader), HDF5 sources and MATLAB code are generated but not compiled/run (no HDF5, no MATLAB)",
+   ref="DESIGN.md section 3 (C08)")
 NOT_YET = {}
 
 props = [json.loads(l) for l in open("properties.jsonl")]
